@@ -19,12 +19,12 @@ P['C03'] = dict(
  note="Same trusted base as C02; 'total holdings of an account' is decided ledger by ledger, not as one sum; maturity moves between an account's own ledgers are covered where C11/C12 prove them. The check also verifies all of C04's clauses (signature verification, key handlers, Validate-before-Process), on which 'signed' rests.")
 P['C04'] = dict(
  technique=TECH + " (loop invariant on ValidateBasic, per-handler Validate postconditions, history tokens on the ABCI wrappers)",
- text="Unbounded proof that ValidateBasic accepts only when every required signer address, in order, has a signature by the key with that address verifying over the given bytes; that each handler's Validate (transfer, staking, network delegation, governance, rewards, evidence, ONS, ETH, OLVM) calls it with the Signers() of the same decoded payload over the serialisation of (type, payload, fee, memo); that the key handlers really verify (ed25519/secp256k1 library contracts) and derive the address from the key; and that CheckTx and DeliverTx reach ProcessCheck/ProcessDeliver/ProcessFee only after that handler's Validate returned true for the same transaction (DeliverTx did not: repaired). OLVM payload malleability (access list, type, signer field unauthenticated) is a known finding.",
+ text="Unbounded proof that ValidateBasic accepts only when every required signer address, in order, has a signature by the key with that address verifying over the given bytes; that each handler's Validate (transfer, staking, network delegation, governance, rewards, evidence, ONS, ETH, OLVM) calls it with the Signers() of the same decoded payload over the serialisation of (type, payload, fee, memo); that the key handlers really verify (ed25519/secp256k1 library contracts) and derive the address from the key; that GetHandler returns a handler only for key bytes of exactly the algorithm's size; and that CheckTx and DeliverTx reach ProcessCheck/ProcessDeliver/ProcessFee only after that handler's Validate returned true for the same transaction (DeliverTx did not: repaired). OLVM payload malleability (access list, type, signer field unauthenticated) is a known finding.",
  note="Signature schemes are uninterpreted functions with the libraries' contracts assumed (T-CRYPTO); JSON/serializer decoding are deterministic functions of the bytes (T-JSON, T-SER); BTC handlers are not under contract.")
 P['C06'] = dict(
  technique=TECH + " of the ABCI wrappers and block-end runners + call-graph frame condition on every handler",
  text="Unbounded proof that txDeliverer/txChecker and the block-end runners (expire/finalize proposals) open a tx session before any handler code runs, that every path ends with the session committed or discarded, and that a non-zero result code leaves everything below the session exactly as on entry; the handler frame (no action.Tx implementation can reach a session/commit/tree-write primitive) is decided on the static call graph of all implementations; State.Set/Delete are proved session-isolated (C09); the EVM per-transaction bookkeeping is finalised exactly once per delivered transaction. One defect repaired (runner left the session open on an undecodable queued transaction).",
- note="Assumed: app.context.Action returns a context over the given state (its aiming is proved under C07); in-memory side effects of failed transactions other than chain state (store option caches, EVM journal) are covered only by the clauses named; doEthTransitions' `continue` after a failed transition leaves its session to the next Begin/Discard (observed, not claimed). The check also verifies the C09 clauses of package storage (BeginTxSession/Set/Delete/Commit/DiscardTxSession), on which the session argument rests.")
+ note="Assumed: app.context.Action returns a context over the given state (its aiming is proved under C07); in-memory side effects of failed transactions other than chain state are covered by a call-graph frame (C06.store-memo: the only fields of objects reachable from the application context that the DeliverTx call graph writes are the listed ones — state-pointer re-aiming, the session machinery, the EVM per-transaction cache that Finalise is proved to empty, decoded values and option caches) and by the write-through clauses of the fee and balance stores; the listed option caches themselves are not proved to be restored; doEthTransitions' `continue` after a failed transition leaves its session to the next Begin/Discard (observed, not claimed). The check also verifies the C09 clauses of package storage (BeginTxSession/Set/Delete/Commit/DiscardTxSession), on which the session argument rests.")
 P['C07'] = dict(
  technique="contract-based deductive verification in a type-state mode: `aimcheck` contracts on every consensus hook, VCs from go/ssa with callees abstracted by call-graph MOD/USE sets of the stores' state-pointer fields, discharged by z3/cvc5; call-graph `nowrite` frame clauses for CheckTx",
  text="Unbounded proof, for every consensus entry point of package app (InitChain, BeginBlock, DeliverTx, EndBlock, Commit closures) and every helper that receives the context, starting from a heap in which every shared store's state pointer is ARBITRARY (any earlier CheckTx may have re-aimed it at the check state): at each call, the receiver and every store, master store or context argument whose state pointer the callee can read is aimed at app.Context.deliver; Action() and ValidatorCtx() are proved to hand out only stores aimed at the requested state. Plus a call-graph frame for CheckTx: it never writes the context's pointers nor the validator queue, reward calculator cache or EVM per-block bookkeeping. Two sites failed on the pinned tree and were repaired after a two-replica replay with a real CheckTx showed diverging results (BeginBlock read the fee option, and scanned proposals for internal transactions, through stores left aimed by the last CheckTx); a CheckTx of a finalize transaction switching the in-memory option caches of shared stores is refuted by the frame and listed as a known finding (three clauses, replays).",
